@@ -203,9 +203,14 @@ PROPS = {
     },
     'C01': {
         'abi_module': 'AbiC01',
+        # a real image that differs from the layout model's image breaks the correspondence; whether the property fails on it is
+        # decided by the executable predicate sound_b applied to the same image (the case emitted right after it)
+        'judge': lambda c, a, b: 'holds' if c.startswith('image ') and not b.startswith('!') else 'violates',
         'stages': quick_thorough(
-            [{'name': 'live', 'sub': 'c01', 'n': 30, 'timeout': 600}],
-            [{'name': 'live', 'sub': 'c01', 'n': 900, 'timeout': 3000}]),
+            [{'name': 'live', 'sub': 'c01', 'n': 30, 'timeout': 600},
+             {'name': 'image', 'sub': 'c01img', 'n': 24, 'timeout': 600, 'per_shard': 2}],
+            [{'name': 'live', 'sub': 'c01', 'n': 900, 'timeout': 3000},
+             {'name': 'image', 'sub': 'c01img', 'n': 600, 'timeout': 3000, 'per_shard': 2}]),
         'assumptions': ["the abstraction of a real image (which objects the stored offsets designate, with the lengths their own headers declare) is computed by the harness's independent decoder; the Coq predicate judges that abstraction",
                         "images below 4 GiB (RVA width of the format)"],
         'partial': 'the builder invariant is proved for the reduced dump of MiniDump.v (thread list, application memory, memory list, exception); the other stream writers use the same primitives (C16 laws) but are not inside that model; that the predicate holds of the model image is validated at run time, not a lemma',
